@@ -260,6 +260,11 @@ def _m_branchvalue_eq(v):
     if not rs or not any(o[1] == "BranchValue" and len(o[2]) > 1 and o[2][1] in (2, ["int", 2], ("int", 2)) for r in rs for o in r["ops"]):
         return False
     w = v.get("witness") or {}
+    if "text_there" in w and w.get("op"):
+        # C09 shape: the entry of the BranchValue(==) op points at an `if`/`elseif` header that spells `a == b` (read as Branch)
+        op = w["op"]
+        return op[0] == "BranchValue" and len(op[1]) == 3 and op[1][1] == "('int', 2)" and \
+            str(w["text_there"]).lstrip("} ").startswith(("if", "elseif")) and "==" in str(w["text_there"])
     s, i = w.get("spec"), w.get("impl")
     if not s or not i or len(s) < 3 or len(i) < 3:
         return False
